@@ -273,6 +273,33 @@ theorem product_meas_le_ppt_bound {ι : Type*} [Fintype ι] (sys : Nat) (ens : E
     successProb (ensStates ens) (ensProbs ens) (fun i => ∑ j, kronF (A i j) (B i j)) ≤ (hi : ℝ) :=
   checkPPTDual_sound sys ens Y Q LQ LS hi h _ (product_povm_is_ppt sys A B hA hB hsum)
 
+/-! ## Symmetric-extension hierarchy: separable measurements are feasible at levels 1 and 2
+
+Stated on index pairs `(x, y)` / triples `(x, y, y₂)` (toqito's composite index is `(x·dY + y)·dY + y₂`).
+`SymExt2 M` collects the constraints `symmetric_extension_hierarchy(level=2)` imposes on one measurement
+operator: an extension `X ⪰ 0` on `X ⊗ Y ⊗ Y₂` with `Tr_{Y₂} X = M`, `(1 ⊗ Π_sym) X (1 ⊗ Π_sym) = X`,
+`T_X(X) ⪰ 0`, `T_{Y₂}(X) ⪰ 0`; level 1 imposes `M ⪰ 0`, `T_X(M) ⪰ 0`. -/
+
+/-- Every operator of a separable measurement, `M = Σ_j A_j ⊗ b_j b_jᴴ` with `A_j ⪰ 0` and unit vectors `b_j`,
+satisfies the constraints of level 1 (`M ⪰ 0`, `T_X(M) ⪰ 0`) and of level 2 (extension `Σ_j A_j ⊗ b_j b_jᴴ ⊗ b_j b_jᴴ`)
+of the symmetric-extension hierarchy; so the hierarchy value at these levels is at least the value of any
+explicit separable measurement. -/
+theorem separable_meas_feasible {m n ι : Type*} [Fintype m] [Fintype n] [DecidableEq m] [DecidableEq n]
+    [Fintype ι] (A : ι → Matrix m m ℂ) (b : ι → n → ℂ) (hA : ∀ j, (A j).PosSemidef)
+    (hb : ∀ j, b j ⬝ᵥ star (b j) = 1) :
+    (∑ j, kroneckerMap (· * ·) (A j) (vecMulVec (b j) (star (b j)))).PosSemidef ∧
+      (pTAp (∑ j, kroneckerMap (· * ·) (A j) (vecMulVec (b j) (star (b j))))).PosSemidef ∧
+      SymExt2 (∑ j, kroneckerMap (· * ·) (A j) (vecMulVec (b j) (star (b j)))) := by
+  have hB : ∀ j, (vecMulVec (b j) (star (b j))).PosSemidef := fun j => Matrix.posSemidef_vecMulVec_self_star _
+  refine ⟨Matrix.posSemidef_sum _ fun j _ => (hA j).kronecker (hB j), ?_,
+    symExt2_sum _ _ fun j _ => symExt2_product (hA j) (b j) (hb j)⟩
+  have h : pTAp (∑ j, kroneckerMap (· * ·) (A j) (vecMulVec (b j) (star (b j))))
+      = ∑ j, kroneckerMap (· * ·) (A j)ᵀ (vecMulVec (b j) (star (b j))) := by
+    ext x y
+    simp only [pTAp, Matrix.sum_apply, Matrix.kroneckerMap_apply, Matrix.transpose_apply]
+  rw [h]
+  exact Matrix.posSemidef_sum _ fun j _ => (hA j).transpose.kronecker (hB j)
+
 /-! ## The four Bell states: the PPT optimum is exactly 1/2
 
 `bellEns` is the ensemble `toqito.states.bell(0..3)` = `Φ⁺, Φ⁻, Ψ⁺, Ψ⁻` with uniform priors.  Lower bound: the
@@ -324,15 +351,21 @@ theorem bell_ppt_value_eq_half (sys : Nat) :
 
 end Bell
 
-/-! ## The checkers accept a concrete asymmetric instance on `2 ⊗ 3`
+/-! ## Concrete instances on `2 ⊗ 3`
 
-Two states on `ℂ² ⊗ ℂ³`, `|0⟩⟨0| ⊗ |0⟩⟨0|` and `|1⟩⟨1| ⊗ |2⟩⟨2|`-like diagonal data with unequal priors; the
-certificates below transpose different parties. -/
+The index convention on unequal dimensions (`X[i,j] = 6 i + j`: `T_B(X)[(0,1),(1,0)] = X[(0,0),(1,1)] = X[0,4]`,
+`T_A(X)[(0,1),(1,0)] = X[(1,1),(0,0)] = X[4,0]`), and an ensemble of two diagonal states with unequal priors whose
+optimum `15/16` is attained by both certificates (which transpose different parties). -/
 
 section Example23
 
 private def d6 (a : Array Rat) : EMat (2 * 3) (2 * 3) :=
   EMat.ofFn fun i j => if i = j then QI.ofRat a[i.val]! else 0
+
+private def lab6 : EMat (2 * 3) (2 * 3) := EMat.ofFn fun i j => QI.ofRat ((6 * i.val + j.val : Nat) : Rat)
+
+example : (pT 1 lab6).get ⟨1, by decide⟩ ⟨3, by decide⟩ = QI.ofRat 4 := by decide +kernel
+example : (pT 0 lab6).get ⟨1, by decide⟩ ⟨3, by decide⟩ = QI.ofRat 24 := by decide +kernel
 
 private def ens23 : Ensemble (2 * 3) := ⟨[d6 #[1/2, 1/2, 0, 0, 0, 0], d6 #[0, 1/4, 1/4, 1/4, 1/4, 0]], [3/4, 1/4]⟩
 
